@@ -356,6 +356,16 @@ def sep1(ctx):
                     empty_guard = True
     ctx.check(empty_guard, R, "empty enumeration values are refused", "", "create_table accepts an empty enumeration value: [\"\"] is written as an empty (null) _Validation.Set cell and the "
               "column reopens without its enumeration", f.loc(), fn=f.name, key=R + "|empty")
+    # either defect alone must be refused: the error is reachable on the edge where only the separator test fired
+    for g in prog.unit(f):
+        Sg = Sym(prog, g)
+        es = [b for (b, t, k, m) in error_sites(prog, g)]
+        for b, n, args, t in symcalls(prog, g, Sg):
+            if n.endswith("<impl str>::contains") and ("c:59" in args[1] or "s:';'" in args[1]):
+                both = [e for e in es if e in cfg.reachable(g, b) and any(re.search(r"is_empty\(", x) and tr is True for (x, tr, gg) in Sg.bool_facts_at(e)) and
+                        any("contains(" in x and tr is True for (x, tr, gg) in Sg.bool_facts_at(e))]
+                ctx.check(not both, R, "a value is refused for either defect alone", "", "create_table refuses an enumeration value only when it is empty AND contains ';': neither defect alone is caught",
+                          g.loc(t["sp"]), fn=f.name, key=R + "|either")
     errs = error_sites(prog, f)
     ctx.check(guard, R, "enumeration values containing ';' are refused", "", "create_table accepts enumeration values containing ';' (or empty): [\"a;b\",\"c\"] is written as \"a;b;c\" and "
               "reopens as three values", f.loc(), fn=f.name, key=R + "|guard")
